@@ -29,6 +29,12 @@ package task
 // ---- C16: guards that walk decoded lists (elements are non-nil by the decoder's invariant) ---------
 //@ func shouldRunOnCurrentPlatform
 //@   sweep                                                          [C16]
+// C13: a task with a platforms list runs exactly when ONE entry of the list admits both the operating system and
+// the architecture (an entry that leaves one of them out admits any)
+//@   define PLATMATCH(k) = ((platforms[k].OS == "" || platforms[k].OS == runtime.GOOS) && (platforms[k].Arch == "" || platforms[k].Arch == runtime.GOARCH))
+//@   loop 1 invariant forall k {platforms[k]} :: 0 <= k && k < $i ==> !$PLATMATCH(k)                           [C13]
+//@   ensures result && len(platforms) > 0 ==> exists k :: 0 <= k && k < len(platforms) && $PLATMATCH(k)         [C13]
+//@   ensures !result ==> len(platforms) > 0 && forall k {platforms[k]} :: 0 <= k && k < len(platforms) ==> !$PLATMATCH(k)   [C13]
 // C13: the guard answers nil only if EVERY required variable was looked up in the task's variables and found,
 // and (second guard) no looked-up value fell outside its enum.
 //@ ghost var anyMissing bool scratch
@@ -327,17 +333,17 @@ package task
 //@   site context.WithCancelCause#1 ghost runCtx := result.0
 // The outcome is published through the cancellation cause of the registered context. GUARANTEE of the registering
 // caller: "succeeded" is published only for an execution that returned nil, a failure is published as itself.
-//@   site result.1:context.WithCancelCause#1 requires arg0 == errExecutionSucceeded && execOK(h)       [C01,C06,C03]
-//@   site result.1:context.WithCancelCause#2 requires arg0 == execErr && arg0 != nil                   [C01,C06,C03]
+//@   site result.1:context.WithCancelCause#1 requires arg0 == errExecutionSucceeded && execOK(h)       [C01,C06,C03,C13]
+//@   site result.1:context.WithCancelCause#2 requires arg0 == execErr && arg0 != nil                   [C01,C06,C03,C13]
 // RELY of a later caller (what the guarantee above gives every thread): the cause it reads from the context
 // registered for h is "succeeded" only if that execution returned nil.
-//@   site context.Cause#1 requires arg0 == otherExecutionCtx                                           [C01,C06]
+//@   site context.Cause#1 requires arg0 == otherExecutionCtx                                           [C01,C06,C13]
 //@   site context.Cause#1 ghost set execOK(h) if result == errExecutionSucceeded
-//@   site (Context).Done#1 requires recv == otherExecutionCtx && ok && h != ""                        [C01,C06]
-//@   site recv#1 requires ok    -- a later caller blocks until the registered execution is done       [C01,C06]
+//@   site (Context).Done#1 requires recv == otherExecutionCtx && ok && h != ""                        [C01,C06,C13]
+//@   site recv#1 requires ok    -- a later caller blocks until the registered execution is done       [C01,C06,C13]
 //@   site recv#1 requires semLimited() ==> tok == 0                                                    [C07]
 //@   site recv#1 requires notAncestor(h)                                                               [C07]
-//@   ensures result == nil && h != "" ==> execOK(h)   -- first caller and waiters alike return nil only for a successful execution  [C01,C06]
+//@   ensures result == nil && h != "" ==> execOK(h)   -- first caller and waiters alike return nil only for a successful execution  [C01,C06,C13]
 //@   nosite delete                     -- an execution key, once registered, is never unregistered     [C06]
 
 // Callees of runCommand whose bodies are outside this proof (trusted frames).
@@ -350,6 +356,15 @@ package task
 //@   modifies heap, fs_exists, fs_ver
 //@   preserves $RUNDATA
 //@   blocks
+
+// ---- C12: the effects a query or a dry run must not have are confined to functions under contract ---------
+// Files are written, removed, created or re-dated, and commands are run, only by the listed functions; each of
+// them is under contract for the dry flag (or is never reached by the query modes). A new call anywhere else in
+// the repository fails here, whatever function it is put in.
+//@ define FSWRITERS = os.MkdirAll os.Mkdir os.WriteFile os.Remove os.RemoveAll os.Create os.OpenFile os.Rename os.Chtimes os.Chmod os.Chown os.Symlink os.Link os.MkdirTemp os.CreateTemp os.Truncate
+//@ callers $FSWRITERS : (*Executor).mkdir InitTaskfile release.* task.run fingerprint.(*ChecksumChecker).IsUpToDate fingerprint.(*ChecksumChecker).OnError fingerprint.(*TimestampChecker).IsUpToDate fingerprint.(*TimestampChecker).OnError taskfile.(*CacheNode).* ast.(*TaskfileGraph).Visualize   [C12]
+//@ callers execext.RunCommand : (*Executor).runCommand (*Compiler).HandleDynamicVar (*Executor).areTaskPreconditionsMet fingerprint.(*StatusChecker).IsUpToDate   [C12]
+//@ callers (*Executor).mkdir : (*Executor).RunTask   [C12]
 
 // ---- C04 / C12: where the fingerprint is consulted, the dry flag and the method are the executor's -----
 // fpTouched: the fingerprint of t may have been rewritten by this execution (the check ran and was not dry).
@@ -450,6 +465,15 @@ package task
 // ---- C18: lock discipline of the shared tables (every function touching them is scanned) ----------------
 //@ guarded_by Executor.executionHashes Executor.executionHashesMutex                                               [C18]
 //@ guarded_by Compiler.dynamicCache Compiler.muDynamicCache                                                        [C18]
+
+// ---- C11: no state survives from one task to the next except the declared run-time tables ----------------
+// Once set up, the Executor and the Compiler are written only through the listed fields (the table of run-once
+// executions, the watcher's directory set, the defaulted sorter; the cache of dynamic variables, which is keyed
+// by command and directory). A memo added anywhere else - another field, a package-level variable - makes what a
+// task sees depend on which tasks were compiled before it, and fails here without any annotation of the new code.
+//@ state_fields Executor: executionHashes watchedDirs TaskSorter except NewExecutor *.ApplyToExecutor (*Executor).setup* (*Executor).getRootNode (*Executor).readTaskfile   [C11]
+//@ state_fields Compiler: dynamicCache except (*Executor).setupCompiler                                           [C11]
+//@ state_fields globals: except init* experiments.Parse experiments.New                                           [C11]
 
 // ---- C11: a dynamic variable is looked up, evaluated and recorded in ONE critical section, so that tasks
 // asking for the same sh: text concurrently get the same value as when they run alone
